@@ -12,9 +12,10 @@ import Driver.HSet
 import Driver.HRefine
 import Driver.HGocty
 import Driver.HStd
+import Driver.HStdNum
 open CtyModel
 
-def handlers : List Handler := [handleTy, handleVal, handleNum, handleOps, handleFunc, handleSet, handleRefine, handleGocty, handleStd]
+def handlers : List Handler := [handleTy, handleVal, handleNum, handleOps, handleFunc, handleSet, handleRefine, handleGocty, handleStd, handleStdNum]
 
 def handle (op : String) (args : List Sexp) : String :=
   match handlers.findSome? (fun h => h op args) with
